@@ -567,10 +567,30 @@ def r3_sorted_renderers(ctx) -> None:
                 else:
                     r.ok("C20.R3", fn, f"flags used order-insensitively: {short(prog.enclosing_stmt(n), 80)}", loc)
     gi = prog.func("sigma.processing.pipeline.ProcessingItemBase._generate_identifier")
-    if "sorted(transformation_dict.items())" in unparse(gi.node):
-        r.ok("C20.R3", gi.qual, "identifier hashes sorted(transformation_dict.items())", gi.loc)
+    # interpreted (sa.tabulate, Proxy; hashlib of the standard library is the only library): transformations that differ only
+    # in the order their attributes were set get the same identifier, transformations that differ in content do not
+    import hashlib as _hashlib
+    from ..tabulate import Proxy as _Pi, call_method as _cmi, Raised as _Ri
+    PIB = "sigma.processing.pipeline.ProcessingItemBase"
+
+    def ident(attr_order, extra=None):
+        T_ = type("SomeTransformation", (), {})
+        t_ = T_()
+        vals = dict({"a": 1, "b": "x", "c": [1, 2]}, **(extra or {}))
+        for k_ in attr_order:
+            setattr(t_, k_, vals[k_])
+        me_ = _Pi(prog, PIB, {"hashlib": _hashlib}, {"transformation": t_, "rule_conditions": [], "rule_condition_negation": False, "rule_condition_linking": None,
+                                                   "rule_condition_expression": None, "identifier": None}, interp_kwargs={"max_steps": 4000, "behaviours": (TypeError,)})
+        try:
+            return _cmi(prog, PIB, "_generate_identifier", me_, {"hashlib": _hashlib}, interp_kwargs={"max_steps": 4000, "behaviours": (TypeError,)})
+        except _Ri as ex:
+            return f"raises {ex}"
+    ids_ = {ident(o_) for o_ in (("a", "b", "c"), ("c", "b", "a"), ("b", "c", "a"))}
+    other_ = ident(("a", "b", "c"), {"b": "y"})
+    if len(ids_) == 1 and other_ not in ids_ and not any(str(x).startswith("raises") for x in ids_ | {other_}):
+        r.ok("C20.R3", gi.qual, "the generated identifier does not depend on the order in which the transformation's attributes were set, and does depend on their values (interpreted)", gi.loc)
     else:
-        r.violation("C20.R3", gi.qual, "content.append(str(sorted(transformation_dict.items())))", "generated item identifier no longer hashes a canonical (sorted) rendering", gi.loc)
+        r.violation("C20.R3", gi.qual, "content.append(str(sorted(transformation_dict.items())))", f"generated item identifier no longer hashes a canonical (sorted) rendering: attribute orders give {sorted(map(str, ids_))}, changed content gives {other_}", gi.loc)
     r.floor("C20.R3", 2)
 
 
